@@ -124,6 +124,10 @@ func (k *KnownFindings) Match(property string, o Obligation) (string, bool) {
 	return "", false
 }
 
+// Current is the program of the rule that is running (rules run one at a time); helpers without a
+// *Program parameter use it to consult the inventory.
+var Current *Program
+
 // RunRule runs a rule, converting panics into a failing obligation.
 func RunRule(p *Program, r *Rule, tier string) (ctx *Ctx) {
 	ctx = &Ctx{P: p, Rule: r, Tier: tier}
@@ -132,6 +136,7 @@ func RunRule(p *Program, r *Rule, tier string) (ctx *Ctx) {
 			ctx.add(Undecided, "panic", token.NoPos, "analyser panic: %v\n%s", rec, firstLines(string(debug.Stack()), 14))
 		}
 	}()
+	Current = p
 	r.Run(ctx)
 	sort.SliceStable(ctx.Obs, func(i, j int) bool { return ctx.Obs[i].Key < ctx.Obs[j].Key })
 	if len(ctx.Obs) == 0 {
